@@ -195,6 +195,13 @@ Theorem C03_parsed_field_positions_distinct : forall bs d es,
   Vld.MemoEquiv.doc_field_positions_distinct (vld_of_syn d).
 Proof. exact parsed_field_positions_distinct. Qed.
 
+(** conjunct (g) [args_total]: argument coercion in executeField never reaches the "unsupported
+    type" panic of the coercion code, whatever the document (C05's no-panic theorem through C01's
+    [coerce_field_args]), for schemas with closed input and argument types *)
+Theorem C03_argument_coercion_never_unsupported : forall ES D ot f,
+  cost_schema_accepted ES = true -> ExeA.ArgSpec.args_total ES D ot f = true.
+Proof. exact args_total_closed. Qed.
+
 (** NOT PROVED — the remaining obligation, exactly [sels_ok]: conjuncts (d) - (i) of the list in
     the header of Properties/C01.v.
     [validate_establishes_sels_ok pi VS F ES] :=
@@ -205,8 +212,7 @@ Proof. exact parsed_field_positions_distinct. Qed.
         dirs_evaluable D E = true -> s_root_type ES (op_kind D) = Some rt ->
         sels_ok ES D E (default_fuel D) (default_fuel D) rt (op_sels D) = true.
     Status of its conjuncts: (d) fuel and (e) non-empty groups are C01's own lemmas
-    (C01_collect_fuel_sufficient); (g) [args_total] is C05_request_no_panic for closed argument
-    types; (f) needs the step from C04's [fields_defined] (fields defined on the static parent type:
+    (C01_collect_fuel_sufficient); (g) [args_total] is proved above; (f) needs the step from C04's [fields_defined] (fields defined on the static parent type:
     C04_accepted_doc_ok_conjuncts) to every possible object type, (h) output types is schema
     construction; (i), the recursion into the MERGED sub-selections of a group, types them against
     the FIRST field node's type and therefore needs 5.3.2 (fields of one response key have the same
@@ -279,6 +285,7 @@ Print Assumptions C03_validated_type_conditions_composite.
 Print Assumptions C03_composite_condition_never_unexpected.
 Print Assumptions C03_validated_root_type_exists.
 Print Assumptions C03_parsed_field_positions_distinct.
+Print Assumptions C03_argument_coercion_never_unsupported.
 Print Assumptions C03_validate_establishes_doc_ok_partial.
 Print Assumptions C03_pipeline_response_partial.
 Print Assumptions C03_validate_with_cost_never_crashes.
